@@ -28,10 +28,15 @@ def member_alphabet():
     }
 
 
-def leaf_assignments(t, mode, path, rnd, per_leaf=2):
-    """(path, value) pairs for a member of type t: the member as a whole and every leaf reachable through nested structures."""
+def leaf_assignments(t, mode, path, rnd, per_leaf=2, anon=False, in_anon=False):
+    """(path, value) pairs for a member of type t: the member as a whole and every leaf reachable through nested structures.
+
+    anon: t is the type of an anonymous member; in_anon: its container is itself an anonymous member.  An anonymous
+    structure nested in an anonymous member has no name a user could assign to (only its folded fields are attributes
+    of the enclosing named object), so it is never assigned as a whole."""
     out = []
-    if not A.has_kind(t, {"union"}):     # a whole value containing a union would have to be coherent: assign below it instead
+    # a whole value containing a union would have to be coherent: assign below it instead
+    if not A.has_kind(t, {"union"}) and not (anon and in_anon):
         for _ in range(per_leaf):
             out.append((path, A.gen_value(rnd, t, mode, {})))
     if t["k"] in ("struct", "union"):
@@ -43,7 +48,7 @@ def leaf_assignments(t, mode, path, rnd, per_leaf=2):
                         pv = {"k": "enum", "cls": f["type"]["name"], "v": pv}
                     out.append((path + [i + 1], pv))
             else:
-                out += leaf_assignments(f["type"], mode, path + [i + 1], rnd, per_leaf)
+                out += leaf_assignments(f["type"], mode, path + [i + 1], rnd, per_leaf, anon=bool(f.get("anon")), in_anon=anon)
     return out
 
 
@@ -58,7 +63,7 @@ def union_universe(rnd, max_members=2, names=None):
                 u = A.t_struct("UU", fields, union=True)
                 assigns = []
                 for j, f in enumerate(fields):
-                    assigns += leaf_assignments(f["type"], mode, [j + 1], rnd)
+                    assigns += leaf_assignments(f["type"], mode, [j + 1], rnd, anon=bool(f.get("anon")))
                 out.append({"type": u, "mode": mode, "consts": {"_": 0}, "assigns": [{"path": p, "value": v} for p, v in assigns]})
     return out
 
@@ -124,7 +129,7 @@ def union_history(rnd, first_id, t, mode, defs, assigns=None, nsteps=4, compiled
             path, value = a["path"], a["value"]
         else:
             j = rnd.randrange(len(t["fields"]))
-            opts = leaf_assignments(t["fields"][j]["type"], mode, [j + 1], rnd, per_leaf=1)
+            opts = leaf_assignments(t["fields"][j]["type"], mode, [j + 1], rnd, per_leaf=1, anon=bool(t["fields"][j].get("anon")))
             if not opts:
                 continue
             path, value = rnd.choice(opts)
